@@ -118,7 +118,7 @@ struct DiskEngine : Engine {
                 std::unique_ptr<PDU> pdu; try { pdu.reset(construct(dlt, f)); } catch (malformed_packet&) {}
                 if (!pdu) { st.inc("probe.generated_frame_does_not_parse"); continue; }
                 // a parsed packet whose serialize() throws cannot be written at all (C02's subject): skipped, counted
-                std::unique_ptr<PDU> cl(pdu->clone()); PDU::serialization_type ser; try { ser = cl->serialize(); } catch (exception_base&) { st.inc("probe.parsed_frame_not_serializable"); continue; }
+                std::unique_ptr<PDU> cl(pdu->clone()); PDU::serialization_type ser; try { ser = cl->serialize(); } catch (std::exception&) { st.inc("probe.parsed_frame_not_serializable"); continue; }
                 Written w; w.sec = sec; w.usec = usec; w.bytes.assign(ser.begin(), ser.end()); w.len = (uint32_t)w.bytes.size();
                 if (wkind == 0) { Packet pk(pdu.release(), Timestamp(std::chrono::microseconds((int64_t)sec * 1000000 + usec)), Packet::own_pdu()); writer->write(pk); }
                 else {   // the clock-stamped overloads: write(PDU&), write(T&) through a pointer, write(range)
@@ -265,7 +265,7 @@ struct DiskEngine : Engine {
                     if (!ofp) throw invalid_pcap_filter("no DataLinkType for this link type");
                     OfflinePacketFilter of(*ofp);      // exercises the copy constructor as well
                     pcap_t* d2 = pcap_open_dead(dlt, 65535); bpf_program pr2; if (d2 && pcap_compile(d2, &pr2, filt.c_str(), 1, PCAP_NETMASK_UNKNOWN) == 0) {
-                        for (auto& r : recs) { std::unique_ptr<PDU> pdu; try { pdu.reset(construct(dlt, r.data)); } catch (malformed_packet&) {} if (!pdu) continue; PDU::serialization_type s; try { s = pdu->serialize(); } catch (exception_base&) { st.inc("probe.parsed_frame_not_serializable"); continue; } /* C02's subject, not judged here */ if (s.empty()) continue;
+                        for (auto& r : recs) { std::unique_ptr<PDU> pdu; try { pdu.reset(construct(dlt, r.data)); } catch (malformed_packet&) {} if (!pdu) continue; PDU::serialization_type s; try { s = pdu->serialize(); } catch (std::exception&) { st.inc("probe.parsed_frame_not_serializable"); continue; } /* C02's subject, not judged here */ if (s.empty()) continue;
                             pcap_pkthdr h; memset(&h, 0, sizeof h); h.caplen = h.len = (bpf_u_int32)s.size(); bool ref = pcap_offline_filter(&pr2, &h, s.data()) != 0; bool sut = of.matches_filter(*pdu); st.inc("chk.offline_filter");
                             if (ref != sut) { pcap_freecode(&pr2); pcap_close(d2); return Verdict::bad("disk:offline-filter-disagrees", fmt("filter '%s' on a %zu-byte frame: OfflinePacketFilter=%d libpcap=%d", filt.c_str(), s.size(), sut, ref)); } }
                         pcap_freecode(&pr2); }
